@@ -534,9 +534,11 @@ class BaseDocutilsDirective(tinydocutils.directives.Directive):
             and PAT_BLOCK_HAS_ARGUMENT.match(self.block_text)
         ):
             content_lines = prepare_viewlist(self.arguments[0])
-            # The argument starts on the directive's own line: keep each of its lines at
-            # its position in the source file
+            # Keep each line of the argument at its position in the source file. It starts on
+            # the directive's own line, unless nothing follows the "::" there
             first_offset = self.lineno - 1
+            if not self.block_text.split("\n", 1)[0].partition("::")[2].strip():
+                first_offset += 1
             self.state.nested_parse(
                 tinydocutils.statemachine.StringList(
                     content_lines,
